@@ -517,7 +517,7 @@ pub fn add_shape(t: &mut Tape, a: &Alphabet, p: &Profile, out: &mut Vec<MQuad>) 
         _ => None,
     };
     let bn = |i: usize| MTerm::Bnode(a.bnodes[i % a.bnodes.len()].clone());
-    let kind = t.below(9);
+    let kind = t.below(10);
     match kind {
         0 => {
             // well-formed list of n items hanging off a subject
@@ -600,6 +600,54 @@ pub fn add_shape(t: &mut Tape, a: &Alphabet, p: &Profile, out: &mut Vec<MQuad>) 
             };
             out.push(([s, pr, o], g.clone()));
             "nil_positions"
+        }
+        9 => {
+            // concatenation-ambiguous names: IRIs A, A+B, B+C, C used pairwise so that the
+            // concatenations (A, B+C) and (A+B, C) coincide (composite keys, prefix + suffix
+            // splits, "graph id followed by node id" and the like must keep them apart)
+            let pick = |t: &mut Tape| match a.iri(t) {
+                MTerm::Iri(i) => i,
+                _ => IRI_POOL[0].to_string(),
+            };
+            let (x, y, z) = (pick(t), pick(t), pick(t));
+            let (xy, yz) = (format!("{x}{y}"), format!("{y}{z}"));
+            // RFC 3987 validity of the concatenations is established here, conservatively and
+            // without the toolkit's validator: the head must already be in its path or query
+            // (so the tail lands there) and have no fragment; the tail may bring at most its
+            // own '#', and no IP-literal brackets (illegal outside the authority)
+            let head_ok = |h: &str| {
+                !h.contains('#')
+                    && match h.split_once("://") {
+                        Some((_, rest)) => rest.contains('/'),
+                        None => !h.contains("//"),
+                    }
+            };
+            let tail_ok = |x: &str| !x.contains('[') && !x.contains(']');
+            let ok = |i: &str| sophia_api::term::IriRef::new(i).is_ok();
+            if head_ok(&x) && head_ok(&y) && tail_ok(&y) && tail_ok(&z) && ok(&xy) && ok(&yz) {
+                let iri = |i: &str| MTerm::Iri(i.to_string());
+                let pr = a.iri(t);
+                let (o1, o2) = (a.literal(t), a.literal(t));
+                match (p.graphs, t.below(3)) {
+                    (true, 0) => {
+                        // (graph, subject)
+                        out.push(([iri(&yz), pr.clone(), o1], Some(iri(&x))));
+                        out.push(([iri(&z), pr, o2], Some(iri(&xy))));
+                    }
+                    (_, 1) => {
+                        // (subject, predicate)
+                        out.push(([iri(&x), iri(&yz), o1], g.clone()));
+                        out.push(([iri(&xy), iri(&z), o2], g.clone()));
+                    }
+                    _ => {
+                        // (predicate, object)
+                        let sb = a.iri(t);
+                        out.push(([sb.clone(), iri(&x), iri(&yz)], g.clone()));
+                        out.push(([sb, iri(&xy), iri(&z)], g.clone()));
+                    }
+                }
+            }
+            "concat_family"
         }
         _ => {
             // asserted and quoted
